@@ -64,7 +64,7 @@ def carried(v, width, dec):
 def build(t2incons, d, rng, names):
     inc = t2incons.t2incon()
     inc.simulator = d["flav"]
-    truth = []
+    truth, pending = [], []
     for i, b in enumerate(d["blocks"]):
         name = names[i]
         vals = [rnd_value(rng) for _ in range(b["nv"])]
@@ -73,8 +73,22 @@ def build(t2incons, d, rng, names):
         if perm is not None and rng.random() < 0.3:
             perm[rng.randrange(3)] = 0.0            # an impermeable direction: present, and exactly zero
         nseq, nadd = (rng.randint(0, 99999), rng.randint(0, 9999)) if b["seq"] else (None, None)
-        inc[name] = t2incons.t2blockincon(vals, name, por, perm, nseq, nadd)
+        pending.append(t2incons.t2blockincon(vals, name, por, perm, nseq, nadd))
         truth.append({"name": name, "vals": vals, "por": por, "perm": None if perm is None else list(perm), "nseq": nseq, "nadd": nadd})
+    if len(pending) >= 2 and rng.random() < 0.3:
+        # the same set of blocks reached through edits: one block inserted at its place afterwards (so the lookup's order
+        # differs from the list's), then a block behind it replaced by an equal one
+        k = rng.randrange(len(pending) - 1)
+        for i, b_ in enumerate(pending):
+            if i != k:
+                inc[b_.block] = b_
+        inc.insert_incon(k, pending[k])
+        j = rng.randrange(k + 1, len(pending))
+        old_ = pending[j]
+        inc[old_.block] = t2incons.t2blockincon(list(old_.variable), old_.block, old_.porosity, old_.permeability, old_.nseq, old_.nadd)
+    else:
+        for b_ in pending:
+            inc[b_.block] = b_
     timing = None
     if d["timing"]:
         timing = {"kcyc": rng.randint(1, 9999), "iter": rng.randint(1, 99), "nm": rng.randint(1, 99),
@@ -228,6 +242,14 @@ def run(tier):
                 if bad:
                     det["difference"] = bad[1]
                     rep.violation(key + ":" + bad[0], bad[0], det)
+                    continue
+                # the name quirk is undone whether or not names are checked while reading
+                with core.watchdog(30), core.quiet():
+                    inc3 = t2incons.t2incon(p1, num_variables=e["nvar"] or None, check_blocknames=False)
+                if [b_.block for b_ in inc3] != [b_.block for b_ in inc2]:
+                    det["difference"] = "block names read with check_blocknames=False: %s, with checking: %s" % (
+                        [b_.block for b_ in inc3][:6], [b_.block for b_ in inc2][:6])
+                    rep.violation(key + ":names-unchecked-read", "P1_names", det)
                     continue
                 with core.quiet():
                     inc2.write(p2, reset=e["reset"])
